@@ -2,6 +2,7 @@ package props
 
 import (
 	"fmt"
+	esmtypes "github.com/comdex-official/comdex/x/esm/types"
 	"math/big"
 	"math/rand"
 	"sort"
@@ -342,6 +343,81 @@ func (r *cdpRunner) step() {
 			gap = r.cfg.maxGap
 		}
 		r.block(gap)
+	}
+}
+
+// esmPhase drives the whole emergency shutdown of one app with real messages and blocks: governance-token holders
+// deposit until the target is reached, somebody executes the shutdown, the esm begin blocker snapshots the prices,
+// users act during the cool-off period, the begin blocker then moves every vault of the app into redemption, and
+// holders of the debt asset redeem collateral. The other app keeps working throughout.
+func (r *cdpRunner) esmPhase(app uint64) {
+	u := r.u
+	c := u.c
+	if r.panicked {
+		return
+	}
+	if st, ok := r.last.ESM[app]; ok && st.Status {
+		return
+	}
+	holder := c.Accts[0]
+	for i := 0; i < 3; i++ {
+		amt := sdk.NewInt(int64(20_000_000 + r.rnd.Intn(9_000_000)))
+		r.tx("esm_deposit", holder, &esmtypes.MsgDepositESM{AppId: app, Depositor: holder.Addr.String(), Amount: sdk.NewCoin("uharbor", amt)}, fmt.Sprintf("app=%d %suharbor", app, amt))
+		if i == 0 { // too early
+			ex := r.pickAcct()
+			r.tx("esm_execute", ex, &esmtypes.MsgExecuteESM{AppId: app, Depositor: ex.Addr.String()}, fmt.Sprintf("app=%d (target not reached)", app))
+		}
+	}
+	ex := r.pickAcct()
+	if res := r.tx("esm_execute", ex, &esmtypes.MsgExecuteESM{AppId: app, Depositor: ex.Addr.String()}, fmt.Sprintf("app=%d", app)); !res.OK() {
+		return
+	}
+	r.rec.Count("esm_executed", 1)
+	r.block(6 * time.Second) // price snapshot
+	r.block(6 * time.Second)
+	// cool-off: ordinary traffic (withdrawals of this app are still possible, nothing may be minted)
+	saved := r.cfg.maxGap
+	r.cfg.maxGap = 5 * time.Minute
+	for i := 0; i < 40+r.rnd.Intn(60) && !r.panicked; i++ {
+		r.step()
+	}
+	r.cfg.maxGap = saved
+	// the cool-off period ends; the begin blocker redeems vaults, stable-mint vaults and the collector, then the shares
+	for c.Header.Time.Before(r.last.ESM[app].EndTime.Add(time.Minute)) && !r.panicked {
+		r.block(20 * time.Minute)
+	}
+	for i := 0; i < 4 && !r.panicked; i++ {
+		r.block(6 * time.Second)
+	}
+	r.rec.Count("esm_cool_off_passed", 1)
+	// redemption by holders of the debt assets
+	for round := 0; round < 6 && !r.panicked; round++ {
+		a := r.pickAcct()
+		for _, d := range []string{"ucmst", "ucmtw"} {
+			bal := r.last.bal(a.Name, d)
+			if bal.Sign() <= 0 {
+				continue
+			}
+			var amt *big.Int
+			switch r.rnd.Intn(4) {
+			case 0:
+				amt = new(big.Int).Set(bal)
+			case 1:
+				amt = big.NewInt(int64(1 + r.rnd.Intn(1000)))
+			default:
+				amt = new(big.Int).Quo(bal, big.NewInt(int64(2+r.rnd.Intn(9))))
+			}
+			if amt.Sign() <= 0 {
+				continue
+			}
+			r.tx("esm_redeem", a, &esmtypes.MsgCollateralRedemptionRequest{AppId: app, Amount: sdk.NewCoin(d, sdk.NewIntFromBigInt(amt)), From: a.Addr.String()}, fmt.Sprintf("app=%d %s%s", app, amt, d))
+		}
+		if round%2 == 1 {
+			r.block(6 * time.Second)
+		}
+	}
+	for i := 0; i < 30 && !r.panicked; i++ {
+		r.step()
 	}
 }
 
